@@ -490,7 +490,9 @@ def _realign_indent(s: str) -> str:
     """
     lines = s.split("\n")
     spaces = len(lines[0]) - len(lines[0].lstrip())
-    stripped_lines = [ln[spaces:] for ln in lines]
+    # Only blanks are removed: a continuation line inside brackets (or inside a multi-line
+    # string) may be indented less than the first line.
+    stripped_lines = [ln[min(spaces, len(ln) - len(ln.lstrip())) :] for ln in lines]
     while len(stripped_lines) > 0 and stripped_lines[-1].strip() == "":
         stripped_lines.pop()
     return "\n".join(stripped_lines)
